@@ -431,7 +431,17 @@ def impl(fn, *a, **kw):
         _clean_modules()
 
 
-def lib_single(tmp, data, key_name, kid, alg, ctx, action, name="lib"):
+def impl_keep(fn, *a, **kw):
+    """impl without the module clean-up: whatever the process keeps between two calls stays"""
+    try:
+        return ("ok", fn(*a, **kw))
+    except Exception as exc:  # noqa: BLE001
+        c = core.exn_code(exc)
+        n = core.EXN_CODES.get(c, type(exc).__name__)
+        return ("exn", EXN_EXTRA.get(n, n))
+
+
+def lib_single(tmp, data, key_name, kid, alg, ctx, action, name="lib", clean=True):
     """cmd_sign.main(single-level) in this process: the output file's bytes (None if no file was written), or the exception."""
     from suit_generator.suit_sign_script_base import SignatureAlreadyPresentActions, SuitSignAlgorithms
     fo = os.path.join(tmp, name + "-out.suit")
@@ -439,7 +449,7 @@ def lib_single(tmp, data, key_name, kid, alg, ctx, action, name="lib"):
     with open(fo, "wb") as fh:
         fh.write(STALE)
     os.utime(fo, (time.time() + 3600, time.time() + 3600))
-    r = impl(_cmd().main, sign_subcommand="single-level", input_envelope=fi, output_envelope=fo, key_name=key_name, key_id=kid,
+    r = (impl if clean else impl_keep)(_cmd().main, sign_subcommand="single-level", input_envelope=fi, output_envelope=fo, key_name=key_name, key_id=kid,
              alg=SuitSignAlgorithms(alg), context=ctx, sign_script=sign_script(), kms_script=kms_script(),
              already_signed_action=SignatureAlreadyPresentActions(action))
     out = read_output(fo)
